@@ -10,12 +10,12 @@ SPEC = dict(
           "systematic truncations of valid structures (single atoms, side chains, backbone atoms, termini, ligand atoms, whole "
           "residues, combinations) must complete without any exception, every ionizable site whose defining atom remains must still be "
           "reported exactly once, and input without atoms or with an unknown file type must raise ValueError and nothing else. "
-          "Group set-up is modelled too (Model/Setup.lean): setup_atoms of every group class (centre atoms, interaction atoms for acids / for bases), set_center, the ring search of the histidine set-up, the covalent coupling search find_covalently_coupled_groups, and the ligand classifier is_ligand_group_by_groups; on every distinct conformation this check runs, centres (bit patterns), both interaction-atom lists, the coupling lists and the class of every hetero atom are compared with the real objects. The scoring model is compared on the truncated structures as well. Theorems: setup_total (for every group class but OCO the list handed to set_center is non-empty whatever atoms and bonds are present - every branch falls back to the group's own atom - so set_center does not raise; for OCO it is exactly the bonded oxygens), interaction_atoms_near (for every class whose set-up does not search a ring, centre and interaction atoms lie within two bonds of the defining atom). program_no_atoms (Props/Program.lean): on the program model a text without any atom record is rejected with ValueError; the program-level correspondence of this check runs on truncated structures (the model's set-up must survive exactly where the code does, and build the same hydrogens and groups).",
+          "Group set-up is modelled too (Model/Setup.lean): setup_atoms of every group class (centre atoms, interaction atoms for acids / for bases), set_center, the ring search of the histidine set-up, the covalent coupling search find_covalently_coupled_groups, and the ligand classifier is_ligand_group_by_groups; on every distinct conformation this check runs, centres (bit patterns), both interaction-atom lists, the coupling lists and the class of every hetero atom are compared with the real objects. The scoring model is compared on the truncated structures as well. Theorems: setup_total (for every group class but OCO the list handed to set_center is non-empty whatever atoms and bonds are present - every branch falls back to the group's own atom - so set_center does not raise; for OCO it is exactly the bonded oxygens), interaction_atoms_near (for every class whose set-up does not search a ring, centre and interaction atoms lie within two bonds of the defining atom). Totality of the set-up (Props/PipelineTotal.lean): mkGroupCore_isSome, extractStep_isSome, extractGroups_isSome, prepare_isSome - whatever atoms are present or missing, bonded or not, typed or not, the model of bonding, typing, protonation, group extraction with the set-up of every class, sorting and coupling returns a prepared conformation (the one Python exception it models, set_center on an empty list, cannot occur: every class but OCO falls back to the group's own atom - setup_total - and the ligand classifier names OCO only for an atom with bonded oxygens - ligandClass_oco), provided the residue-to-group mapping of the parameter file names classes the set-up knows (inst_mapping_known, decided on the regenerated file); program_setup_never_raises lifts it to every conformation of Program.run. program_no_atoms (Props/Program.lean): on the program model a text without any atom record is rejected with ValueError; the program-level correspondence of this check runs on truncated structures (the model's set-up must survive exactly where the code does, and build the same hydrogens and groups).",
     note="Partial: that every setup_atoms variant and every scoring kernel tolerates missing partners (empty interaction-atom lists, "
          "missing carbons/oxygens/rings, divisions by distances) is established by running the real code on the truncations, not by a "
          "theorem; numeric degeneracies (coincident atoms) are outside the generated family.",
     technique="Lean 4 proof (state-independence of line acceptance, induction over sublists; filterMap/filter commutation) + fault enumeration on the real pipeline",
-    lean=["Propka.Props.C12", "Propka.Props.Program"],
+    lean=["Propka.Props.C12", "Propka.Props.Program", "Propka.Props.PipelineTotal"],
     rule="library structures and test files x deletions: every single atom of a residue in context (thorough: all; quick: sampled), whole "
          "side chains, backbone atoms, termini, ligand atoms, whole residues, random subsets of 1-30 %; non-trivial = a deletion that "
          "removes at least one atom and leaves at least one ionizable site",
